@@ -289,6 +289,21 @@ func genConstraints(r *runner, rng *hx.Rng, thorough bool) {
 							creds = creds[:3]
 						}
 
+						switch rng.Intn(5) {
+						case 0: // every credential as SD-JWT
+							for i := range creds {
+								creds[i].SD = true
+							}
+						case 1:
+							for i := range creds {
+								creds[i].JWT = 1
+							}
+						case 2:
+							for i := range creds {
+								creds[i].MapSubject = rng.Intn(3) == 0
+							}
+						}
+
 						r.do(fmt.Sprintf("constraints:f%d", fi), Case{Def: Defn{Descs: []Desc{d1}}, Creds: creds}, true)
 					}
 				}
@@ -349,6 +364,7 @@ func genFormats(r *runner, rng *hx.Rng, thorough bool) {
 		func(id int) Cred { return Cred{ID: id, Issuer: 50, Subject: 60, Types: []int{1}, Proofs: []int{1, 2}} },
 		func(id int) Cred { return Cred{ID: id, Issuer: 50, Subject: 60, Types: []int{1}, JWT: 1} },
 		func(id int) Cred { return Cred{ID: id, Issuer: 50, Subject: 60, Types: []int{1}, JWT: 2} },
+		func(id int) Cred { return Cred{ID: id, Issuer: 50, Subject: 60, Types: []int{1}, JWT: 1, SD: true} },
 	}
 
 	rounds := 5
@@ -550,6 +566,8 @@ func genRandom(r *runner, rng *hx.Rng, thorough bool) {
 				c.JWT = 1
 			case 1:
 				c.Proofs = []int{1}
+			case 2, 3:
+				c.SD = true
 			}
 
 			for a := 1; a <= 4; a++ {
@@ -780,4 +798,118 @@ func min(a, b int) int {
 	}
 
 	return b
+}
+
+// genDisclosure: what a verifier can read under limited disclosure.  Leaves: a1..a3 at top level, o5.a1..o5.a3 (the
+// same claim names one level down), o6.a1, array-valued a6 and o5.a7; credentials as plain LDP (self-issued or not),
+// JWT, SD-JWT and with the subject held as a map; one to three descriptors (limit required / preferred / absent,
+// predicates, optional fields) that share the credentials; near misses: the requested name present only at the
+// other level, the array where a scalar is asked.
+func genDisclosure(r *runner, rng *hx.Rng, thorough bool) {
+	n := 420
+	if thorough {
+		n = 4000
+	}
+
+	keys := []int{1, 2, 3, 501, 502, 503, 601, 6, 507}
+
+	val := func(g *hx.Rng, k int) Val {
+		switch {
+		case k == 6 || k == 507:
+			return Val{T: "a", S: 1 + g.Intn(3)}
+		case g.Intn(3) == 0:
+			return str(g.Intn(3))
+		default:
+			return num(int64(g.Intn(4)))
+		}
+	}
+
+	for i := 0; i < n; i++ {
+		g := rng.Fork(uint64(i))
+		nd := 1 + g.Intn(3)
+
+		var descs []Desc
+
+		for d := 1; d <= nd; d++ {
+			c := &Cons{}
+
+			switch g.Intn(4) {
+			case 0:
+			case 1:
+				c.Limit = 1
+			default:
+				c.Limit = 2
+			}
+
+			nf := 1 + g.Intn(3)
+			for j := 0; j < nf; j++ {
+				f := Field{Paths: []int{keys[g.Intn(len(keys))]}}
+				if g.Intn(3) == 0 {
+					f.Paths = append(f.Paths, keys[g.Intn(len(keys))])
+				}
+
+				switch g.Intn(5) {
+				case 0:
+					f.Filter = &Filter{Type: 1, Min: i64(int64(g.Intn(3)))}
+				case 1:
+					f.Filter = &Filter{Type: 2}
+				case 2:
+					f.Filter = &Filter{Type: 1}
+					f.Pred = g.Bool()
+				}
+
+				f.Optional = g.Intn(6) == 0
+				c.Fields = append(c.Fields, f)
+			}
+
+			descs = append(descs, Desc{ID: d, Schema: []Sch{{URI: 1}}, Cons: c})
+		}
+
+		var reqs []SReq
+
+		if nd >= 2 && g.Intn(3) == 0 {
+			for j := range descs {
+				descs[j].Groups = []int{1}
+			}
+
+			reqs = []SReq{{Min: 1, From: 1}}
+		}
+
+		nc := 1 + g.Intn(3)
+
+		var creds []Cred
+
+		form := g.Intn(6)
+
+		for j := 0; j < nc; j++ {
+			c := Cred{ID: j + 1, Issuer: 50, Subject: 60, Types: []int{1}}
+			if g.Intn(3) != 0 {
+				c.Subject = 50 // self-issued: plain credentials may be limited
+			}
+
+			f := form
+			if g.Intn(4) == 0 {
+				f = g.Intn(6)
+			}
+
+			switch f {
+			case 0, 1, 2:
+				c.SD = true
+			case 3:
+				c.JWT = 1
+			case 4:
+				c.MapSubject = g.Intn(3) == 0
+			}
+
+			for _, k := range keys {
+				if g.Intn(3) != 0 {
+					c.Attrs = append(c.Attrs, Attr{K: k, V: val(g, k)})
+				}
+			}
+
+			creds = append(creds, c)
+		}
+
+		r.do("disclosure", Case{Def: Defn{Reqs: reqs, Descs: descs}, Creds: creds}, true)
+	}
 }
